@@ -7,7 +7,7 @@ PROP = dict(
     groups=['sedov'],
     obligations=[
         obl('C11.sedov.energy', 'EPV.Props.C11.Sedov', ['EPV.C11.sedov_energy', 'EPV.C11.sedov_energy_singular'],
-            models=['SedovShock'], oracle=o_sedov.energy_all, tie=o_sedov.tie_assemble),
+            models=['SedovShock'], oracle=[o_sedov.energy_all, o_sedov.two_times], tie=o_sedov.tie_assemble),
         obl('C11.sedov.mass', 'EPV.Props.C11.Sedov', ['EPV.C11.sedov_mass_iff_partial', 'EPV.C11.sedov_mass_singular'],
             models=['SedovShock', 'SedovSingular'],
             oracle=o_sedov.mass_all),
